@@ -10,6 +10,8 @@ def run(tier, seed):
     for env, tag in [(None, "default"), (rof, "rof"), (noarena, "os"), (both, "rof+os"), (purge, "purge")]:
         jobs.append({"prog": "exit", "strategy": "random", "runs": (120, 1500), "args": ["--spurious", "1", "--rate", "3"], "env": env})
         jobs.append({"prog": "exit", "strategy": "pct", "runs": (60, 800), "args": [], "env": env})
+    jobs.append({"prog": "exit", "strategy": "random", "runs": (80, 1000), "args": ["--park", "6", "--rate", "3"], "env": None})      # a remote free stalled between its two CAS while the owner exits
+    jobs.append({"prog": "exit", "strategy": "pct", "runs": (40, 600), "args": ["--park", "6"], "env": rof})
     jobs.append({"prog": "exit-heap", "strategy": "random", "runs": (30, 400), "args": ["--rate", "3"], "env": None})
     jobs.append({"prog": "exit-heap", "strategy": "random", "runs": (30, 400), "args": ["--rate", "3"], "env": rof})
     jobs.append({"prog": "exit", "strategy": "random", "runs": (60, 800), "args": ["--size", "60000", "65536"], "env": rof})
